@@ -203,6 +203,25 @@ class OwnDomain(Domain):
                 )
             )
 
+    def on_container_mutation(self, interp, chain, how, node):
+        frame = interp.frame
+        fi = frame.func
+        if fi.name in ("__init__",):
+            return
+        parts = chain.split(".")
+        attr = parts[1] if len(parts) > 1 else chain
+        recv_cls = None
+        for f in reversed(frame.stack()):
+            if f.self_av is not None and f.self_av.kind == "obj":
+                recv_cls = f.self_av.data[0][0]
+                break
+        if recv_cls is not None:
+            for c in recv_cls.repo_mro():
+                if (c.name, attr) in ATTR_EFFECTS or (c.name, attr) in EFFECTS:
+                    return  # a documented effect (the Linear cache memo)
+        stack = [f.func.qualname for f in frame.stack()]
+        self.findings.append(Finding("OWN-ATTR", fi.module, fi.qualname, node, "evaluation path mutates the container kept in '%s' (%s): the model remembers something about this call" % (chain, how), witness=stack))
+
     def nonempty_loop(self, interp, frame, node):
         from . import facts
 
